@@ -94,6 +94,13 @@ def gen_C23(tier, rnd):
         for qos in (0, 1):
             ev = CONNECT + [reg(1, "t/a"), bpub("t/a", qos=qos, mid=7, pl="z:%d" % n), bpub("ab", qos=qos, mid=8, pl="z:%d" % n)]
             out.append(sc("payload-%d-q%d" % (n, qos), ev, tail=30))
+            # the same payload on a topic the client does not know yet: REGISTER first, PUBLISH after REGACK
+            ev = CONNECT + [bpub("n/big", qos=qos, mid=7, pl="z:%d" % n), P("REGACK", mid=7 if qos else 65535, tid=1, rc=0)]
+            out.append(sc("payload-newtopic-%d-q%d" % (n, qos), ev, tail=30))
+    for tl in (100, 250, 8183, 8184, 8185, 9000):
+        # long topic names: the REGISTER must fit into one datagram as well
+        out.append(sc("longtopic-%d" % tl, CONNECT + [bpub("t/" + "x" * (tl - 2), qos=1, mid=7, pl="s:p"),
+                                                        P("REGACK", mid=7, tid=1, rc=0)], tail=15))
     # CONNACK shapes: zero keep-alive, awake/asleep shortcut
     out.append(sc("zero-ka", [P("CONNECT", dur=0, cid="c1")], tail=5))
     out.append(sc("zero-ka-active", CONNECT + [P("CONNECT", dur=0, cid="c1")], tail=5))
